@@ -34,6 +34,9 @@ def harnesses(tier):
         hs.append({"id": "sort2/" + "+".join(c), "params": {"kind": "sort", "paths": list(c)}, "timeout": 200})
     hs.append({"id": "sort2gz/>s1+>x1", "params": {"kind": "sort", "paths": [">s1", ">x1"], "gz_in": True, "gz_out": True},
                "timeout": 200})
+    for gi in (False, True):
+        hs.append({"id": "sort2-nonl/%s/>s1+>x1" % ("bgzf" if gi else "text"), "params": {"kind": "sort", "paths": [">s1", ">x1"], "gz_in": gi,
+                                                                                 "no_final_newline": True}, "timeout": 200})
     three = [(">s1", ">x1", "<s1")]
     if tier == "thorough":
         three += [(">s1>x1", "<s2", ">x1"), (">s1", ">s1", ">s1"), (">x1", ">s1<s2", "<s2<x1<s1")]
@@ -82,7 +85,8 @@ def lines_by_name(lines):
 def replay(params, model, wd):
     used, tags, nums = F.decode_sort(params, model)
     paths = params["paths"]
-    lines, outl, offs, idx, err = F.real_sort(wd, paths, tags, nums, params.get("gz_in"), params.get("gz_out"))
+    lines, outl, offs, idx, err = F.real_sort(wd, paths, tags, nums, params.get("gz_in"), params.get("gz_out"),
+                                              no_final_newline=bool(params.get("no_final_newline")))
     if err and "KeyError: 'unknown'" not in err:
         return {"reproduced": True, "key": "C09:sort:exception:" + err.split(":")[0], "what": "run_sort raised " + err}
     v = concrete_content_violation(paths, tags, nums, lines, outl)
